@@ -13,6 +13,8 @@ use sst::log::LogOptions;
 mod kvs;
 mod reference_counter;
 mod tree;
+#[cfg(rescrv_blue_verif)]
+pub mod verif;
 mod verifier;
 
 pub use kvs::{KeyValueStore, WriteBatch};
